@@ -44,12 +44,19 @@ def CI.matches : CI → Char → Bool
 def inCls (neg : Bool) (items : List CI) (c : Char) : Bool :=
   (items.any (·.matches c)) != neg
 
-/-- greedy bounded iteration of a matcher: one more round first, stopping second -/
-def iter (f : Env → Str → Res) : Nat → Nat → Env → Str → Res
-  | lo, 0, e, s => if lo = 0 then [(e, s)] else []
-  | lo, hi+1, e, s =>
-      ((f e s).flatMap fun (e', s') => iter f (lo - 1) hi e' s')
-        ++ (if lo = 0 then [(e, s)] else [])
+/-- Greedy bounded iteration of a matcher, as the engine runs it.  The first `lo` rounds are forced.
+After that, one more round is tried first and stopping second, but the engine's zero-width guard
+applies: another round is attempted only if the previous optional round started at a different
+position (`last` is the remaining length at which it started), so a round that consumed nothing
+is never followed by a further round. -/
+def iterG (f : Env → Str → Res) : Nat → Nat → Option Nat → Env → Str → Res
+  | lo, 0, _, e, s => if lo = 0 then [(e, s)] else []
+  | lo+1, hi+1, last, e, s => (f e s).flatMap fun (e', s') => iterG f lo hi last e' s'
+  | 0, hi+1, last, e, s =>
+      (if last = some s.length then []
+        else (f e s).flatMap fun (e', s') => iterG f 0 hi (some s.length) e' s') ++ [(e, s)]
+
+def iter (f : Env → Str → Res) (lo hi : Nat) (e : Env) (s : Str) : Res := iterG f lo hi none e s
 
 def stripPrefix : Str → Str → Option Str
   | [], s => some s
